@@ -65,11 +65,13 @@ type SpecFunc struct {
 }
 
 type Axiom struct {
-	Name string
-	Expr *Expr
-	Text string
-	File string
-	Line int
+	Name  string
+	Expr  *Expr
+	Text  string
+	File  string
+	Line  int
+	Lemma bool // proved in isolation (obligation kind "lemma") before being used as an axiom
+	Tags  []string
 }
 
 type GlobalInv struct {
@@ -91,7 +93,7 @@ func NewContractSet() *ContractSet {
 	return &ContractSet{Funcs: map[string]*FuncContract{}, Specs: map[string]*SpecFunc{}}
 }
 
-var kwRe = regexp.MustCompile(`^(func|requires|ensures|modifies|loop|pure|rec|pred|axiom|trusted|opaque|global|uninterp|note|cost|reads)\b`)
+var kwRe = regexp.MustCompile(`^(func|requires|ensures|modifies|loop|pure|rec|pred|axiom|lemma|trusted|opaque|global|uninterp|note|cost|reads)\b`)
 var tagRe = regexp.MustCompile(`\s\[(C[0-9]+[A-Za-z0-9_,\- ]*)\]\s*$`)
 
 type rawClause struct {
@@ -381,18 +383,19 @@ func (cs *ContractSet) LoadFile(path string, goFile bool, pkg string) error {
 			}
 			cs.Specs[sf.Name] = sf
 			curSpec = sf
-		case "axiom":
+		case "axiom", "lemma":
 			cur = nil
 			curSpec = nil
-			i := strings.Index(rest, ":")
+			text, tags, _ := splitTags(rest)
+			i := strings.Index(text, ":")
 			if i < 0 {
-				return errf(rc, "axiom needs a name: axiom name: expr")
+				return errf(rc, "axiom/lemma needs a name: axiom name: expr")
 			}
-			e, err := ParseExpr(rest[i+1:])
+			e, err := ParseExpr(text[i+1:])
 			if err != nil {
 				return errf(rc, "%v", err)
 			}
-			cs.Axioms = append(cs.Axioms, &Axiom{Name: strings.TrimSpace(rest[:i]), Expr: e, Text: rest[i+1:], File: rc.file, Line: rc.line})
+			cs.Axioms = append(cs.Axioms, &Axiom{Name: strings.TrimSpace(text[:i]), Expr: e, Text: text[i+1:], File: rc.file, Line: rc.line, Lemma: kw == "lemma", Tags: tags})
 		case "global":
 			cur = nil
 			curSpec = nil
